@@ -9,10 +9,14 @@ ID = 'C09'
 GENS = ['tables']
 TARGETS = ['BC.Props.C09']
 PROP_FILES = ['BC/Props/C09.lean', 'BC/Lemmas/C09.lean']
+# source ties: function bodies regenerated from the Python source by translate/t_funcs.py, proved equal to the model functions
+SRC = {'module': 'BC.Props.C09Src', 'file': 'BC/Props/C09Src.lean',
+       'theorems': ['C09_src_curve', 'C09_src_loop_bounds', 'C09_src_bsearch_init', 'C09_src_bsearch_step', 'C09_src_select', 'C09_src_value']}
 THEOREMS = ['C09_curve_interpolates', 'C09_select_range', 'C09_select_between', 'C09_select_node', 'C09_select_beyond',
             'C09_value_at_nodes', 'C09_value_between', 'C09_cd_homogeneous', 'C09_retardation', 'C09_tables_are_reference',
             'C09_within_5pct']
 STATEMENTS = {
+    'C09_src_curve': 'SOURCE TIE (all C09_src_*): calculate_curve (first entry, loop bounds, loop body, closing entry) and _calculate_by_curve_and_mach_list (initial bracket, loop condition and body, nearest-node selection, evaluation) as slices executed symbolically from the Python source on every run equal curveAt / bsearch / selectIdx / cdAt of the model',
     'C09_curve_interpolates': 'n>=3, strictly ascending Mach: curve entry k<=n-2 passes through each of its points ({0,1} for k=0, {k-1,k,k+1} else)',
     'C09_select_range': 'the selected entry is <= n-2 (never the closing line)',
     'C09_select_between': 'x_i < m < x_{i+1}: the selected entry is built from points including both i and i+1',
